@@ -287,6 +287,10 @@ class StmtMixin(object):
       st.frames[cx.chain[0]][t.id] = v
       yield st, None
     elif isinstance(t, (ast.Tuple, ast.List)):
+      if (isinstance(v, V) and v.ty.k == 'ref' and self.reg.classes.get(v.ty.name) is not None
+          and self.reg.classes[v.ty.name].listlike and len(self.reg.classes[v.ty.name].listlike) == len(t.elts)):
+        items = [self.load_field(st, v.t, v.ty.name, f) for f in self.reg.classes[v.ty.name].listlike]
+        v = V(Ty('tuple', [i.ty for i in items]), items=items)
       if not (isinstance(v, V) and v.ty.k == 'tuple' and len(v.items) == len(t.elts)):
         raise Unsupported('unpacking %r into %d targets (line %d)' % (v, len(t.elts), t.lineno))
       if v.none is not None and not self.spec_depth:
@@ -362,6 +366,12 @@ class StmtMixin(object):
               yield s2, None
         elif k == 'dict':
           self.dict_set(s1, base, coerce(idx, base.ty.args[0]), v)
+          yield s1, None
+        elif k == 'ref' and self.reg.classes.get(base.ty.name) is not None and self.reg.classes[base.ty.name].listlike:
+          c = z3.simplify(idx.t)
+          if not z3.is_int_value(c):
+            raise Unsupported('record index must be constant (line %d)' % t.lineno)
+          self.store_field(s1, base.t, base.ty.name, self.reg.classes[base.ty.name].listlike[c.as_long()], v)
           yield s1, None
         elif k == 'ref' and self.dictlike_info(base.ty) is not None:
           f = self.dl_field(self.dictlike_info(base.ty), idx, t)
